@@ -134,3 +134,68 @@ def run(ctx, repo):
                 ctx.violation(construct, where, 'bytes %s at %d: %s' % (' '.join('%02X' % x for x in bad[1]), address, bad[0]))
             else:
                 ctx.ok({'sequence': name, 'cases': done} if b % 64 == 0 else None)
+
+def data_rule(ctx, repo):
+    """C01.5 (*fold*): the data-statement builders of the disassembler (DEFB / DEFM / DEFW / DEFS ranges, the entry points snaskool calls for
+    b, t, w and s blocks and B/T/W/S sub-blocks) folded on model data, and their text folded back through the assembler: the statements tile
+    the range from its start, each reproduces exactly the bytes it claims, and together they are the original bytes.  Word blocks are given
+    even lengths (the property quantifies over control files whose boundaries fall on statement boundaries)."""
+    ctx.rule('C01.5-data-roundtrip', 'defb/defm/defw/defs_range -> assembler (folded): statements tile the range and reproduce its bytes; lengths 1..13, all six bases, default and explicit sublengths, text with quotes and backslashes, zero and non-zero fills', floor=250)
+    rnd = random.Random(105 + ctx.seed)
+    F = Folders(repo)
+    where = 'skoolkit/disassembler.py'
+    snap = [rnd.choice((0, 0, 65, 66, 34, 92, 32, 200, 255, 94, 96, 127, rnd.randrange(256))) for _ in range(65536)]
+    d = F.disassembler(snap, False, False)
+    seen = set()
+    for kind in ('defb_range', 'defm_range', 'defw_range', 'defs_range'):
+        for n in range(1, 14):
+            if kind == 'defw_range' and n % 2:
+                continue
+            for base in ('n', 'h', 'd', 'b', 'c', 'm'):
+                start = 40000 + 50 * n + {'defb_range': 0, 'defm_range': 1000, 'defw_range': 2000, 'defs_range': 3000}[kind]
+                if kind == 'defs_range':
+                    fill = 0 if base in 'nh' else rnd.choice((7, 255, 65))
+                    for a in range(start, start + n):
+                        snap[a] = fill
+                for subl in (((0, base),), ((n, base),)):
+                    name = '%s length %d base %s %s sublength' % (kind, n, base, 'explicit' if subl[0][0] else 'default')
+                    construct = '%s base %s' % (kind, base)
+                    try:
+                        ins = F.cfd.call(d, kind, start, start + n, subl)
+                    except NotLiteral as e:
+                        ctx.limit(name, 'not foldable: %s' % e)
+                        continue
+                    except (KeyError, IndexError, ValueError, TypeError, AttributeError) as e:
+                        if construct not in seen:
+                            seen.add(construct)
+                            ctx.violation(construct, where, '%s on bytes %s fails with %s: %s' % (name, snap[start:start + n], type(e).__name__, e))
+                        continue
+                    addr = start
+                    problem = None
+                    out = []
+                    for i in ins:
+                        if i.address != addr:
+                            problem = 'statement `%s` is placed at %d, the previous one ends at %d' % (i.operation, i.address, addr)
+                            break
+                        try:
+                            data = F.assemble(i.operation, i.address)
+                        except NotLiteral as e:
+                            problem = 'limit:%s' % e
+                            break
+                        except (KeyError, IndexError, ValueError, TypeError, AttributeError) as e:
+                            data = None
+                        if data is None or list(data) != list(i.bytes):
+                            problem = '`%s` assembles to %s, the statement stands for %s' % (i.operation, (list(data)[:12] + (['...'] if len(data) > 12 else [])) if data else 'nothing', list(i.bytes))
+                            break
+                        out.extend(i.bytes)
+                        addr += len(i.bytes)
+                    if problem is None and out != snap[start:start + n]:
+                        problem = 'the statements %s stand for %s, the range holds %s' % ([i.operation for i in ins], out, snap[start:start + n])
+                    if problem and problem.startswith('limit:'):
+                        ctx.limit(name, 'assembler not foldable: %s' % problem[6:])
+                    elif problem:
+                        if construct not in seen:
+                            seen.add(construct)
+                            ctx.violation(construct, where, '%s on bytes %s: %s' % (name, snap[start:start + n], problem))
+                    else:
+                        ctx.ok({'case': name} if n == 5 else None)
